@@ -65,7 +65,6 @@ def _t_cases(tier):
             note='message of arbitrary length and content (abstract tail), key contents symbolic, hash an arbitrary function with the (block, digest) sizes of each library hash; '
                  'quick tier: key lengths at the block/digest boundaries, thorough tier: every key length 0..3 blocks')
 def _(c):
-    from pyvc.sbytes import SBytesT
     B, n = c.case('B'), c.case('n')
     h = AbstractHash(B, n)
     msg = c.tail('M')
